@@ -179,7 +179,8 @@ def judge(ctx, start, end, duration, hop, inc, ids=False):
         if ctx.evaluations % 5 == 0:
             # a caller that only wanted the first window (and never finishes the generator) must not
             # influence a later, complete segmentation of the same clip
-            it = O.segment_clip(clip, duration, hop=hop, include_incomplete=inc)
+            # (the unwrapped function: the stream monitor would otherwise drain the generator itself)
+            it = instrument.original(O.segment_clip)(clip, duration, hop=hop, include_incomplete=inc)
             next(it, None)
             del it
         segs = list(O.segment_clip(clip, duration, hop=hop, include_incomplete=inc))
